@@ -140,3 +140,26 @@ Theorem C02_postfix_left_to_right : forall (P: Type) f e,
   post P (fun r => exists sufs, r = fold_left (app_sfx P) sufs e) (p_postfix_suffixes P f e).
 Proof. exact postfix_left_to_right. Qed.
 Print Assumptions C02_postfix_left_to_right.
+
+(* COMPLETENESS at token level (proofs/RoundTripX.v): for every expression e of the language [ex] (identifiers,
+   constants, binary and prefix operators, subscripts, member accesses, calls, ?:, assignments, comma), the tokens
+   [xt true e] - e written with ONLY the parentheses that C's precedence and associativity make necessary (the
+   generator's reduce_parentheses rule for binary operators; operands of other operators in parentheses unless they
+   are postfix expressions) - are parsed by the whole-parser model to exactly e: the parser groups unparenthesised
+   operator sequences as C's grammar prescribes, whatever the size and shape of e. *)
+From PV Require ParserBase ParserMain StreamLib RoundTrip RoundTripGen RoundTripX.
+Theorem C02_minimal_parentheses_parse_back : forall (P: Type) (e: RoundTripX.ex), RoundTripX.wf e ->
+  forall (s: ParserBase.pstate P) le stop l0, RoundTrip.Spell P le (RoundTripX.xt true e) ->
+  StreamLib.Up P s (le ++ stop :: l0) -> RoundTrip.estop (ParserBase.tk stop) = true ->
+  exists f0 N s', (forall f, (f0 <= f)%nat -> ParserMain.p_expression P f s = ParserBase.Ok (N, s')) /\
+                  StreamLib.Up P s' (stop :: l0) /\ RoundTrip.strip N = RoundTripX.embx e.
+Proof. intros P e. exact (RoundTripX.parse_of_generated_expression P true e). Qed.
+Print Assumptions C02_minimal_parentheses_parse_back.
+
+(* non-vacuity: ((a - b) - (c * d)) < e  is written  a - b - c * d < e : no parentheses at all *)
+Example C02_grouping_example :
+  let id x := RoundTripX.XId (s2l x) in
+  let e := RoundTripX.XBin (s2l "<") (RoundTripX.XBin (s2l "-") (RoundTripX.XBin (s2l "-") (id "a") (id "b")) (RoundTripX.XBin (s2l "*") (id "c") (id "d"))) (id "e") in
+  map fst (RoundTripX.xt true e) = [K_ID; K_MINUS; K_ID; K_MINUS; K_ID; K_TIMES; K_ID; K_LT; K_ID]
+  /\ map fst (RoundTripX.xt true (RoundTripX.XBin (s2l "-") (id "a") (RoundTripX.XBin (s2l "-") (id "b") (id "c")))) = [K_ID; K_MINUS; K_LPAREN; K_ID; K_MINUS; K_ID; K_RPAREN].
+Proof. vm_compute. split; reflexivity. Qed.
